@@ -1,1 +1,191 @@
+(* C04_Spec.v — what the property text promises, stated per CASE over the HISTORY of
+   results reported for it, with no reference to the outcome map, its keys, sorting,
+   the sideband map or the switch inside report().
+
+   "The runner exits successfully exactly when every selected permutation produced an
+    outcome and met its expectation: unmarked cases passed, known-failing cases actually
+    ran and failed, known-flaky cases did either.  A case that could not be set up or run
+    always counts against success even if marked known-failing or flaky, and feedback
+    reported by a reference peer turns an otherwise matching result into a failure.
+    Every failing case is named in the output and the printed totals account for every
+    case exactly once." *)
 From V Require Export C04_Model.
+Open Scope nat_scope.
+
+(* ---------- the truth table ---------- *)
+Inductive marking := Unmarked | KnownFailing | KnownFlaky.
+
+(* what happened to a case, in the property's words *)
+Inductive fate :=
+| NeverAnswered   (* nothing was ever reported for it *)
+| RanPassed       (* a result arrived and matched the expectation *)
+| RanFailed       (* a result arrived: assertion failure or client-reported error *)
+| SetupFailed     (* server failed to start, a peer died or exited early, no result arrived *)
+| NotRun.         (* its request could not even be sent *)
+
+(* Peer feedback about a case is itself evidence that the case ran (the reference peer
+   saw its request) and that it went wrong.  So, with feedback, a case did run unless a
+   set-up / could-not-run error says otherwise, and it failed. *)
+Definition did_not_run (f : fate) (feedback : bool) : bool :=
+  match f with
+  | SetupFailed | NotRun => true
+  | NeverAnswered => negb feedback
+  | RanPassed | RanFailed => false
+  end.
+
+Definition failed_run (f : fate) (feedback : bool) : bool :=
+  match f with
+  | RanPassed => feedback
+  | _ => true
+  end.
+
+(* the case met its expectation *)
+Definition met (m : marking) (f : fate) (feedback : bool) : bool :=
+  if did_not_run f feedback then false
+  else match m with
+       | Unmarked => negb (failed_run f feedback)
+       | KnownFailing => failed_run f feedback
+       | KnownFlaky => true
+       end.
+
+(* the line of the summary a case is counted in *)
+Definition bucket (m : marking) (f : fate) (feedback : bool) : cls :=
+  match f with
+  | NotRun => CNotRun
+  | SetupFailed => CFailed
+  | _ =>
+    if did_not_run f feedback then CNotRun
+    else if failed_run f feedback
+         then match m with Unmarked => CFailed | _ => CExpected end
+         else match m with KnownFailing => CFailed | _ => CPassed end
+  end.
+
+(* ---------- the result on record for a case after a history ---------- *)
+(* Results reported for a case replace earlier ones (the latest wins); marking "the
+   remaining cases" (failRemaining) only ever fills in a case that has nothing on record.
+   Read with the latest operation first. *)
+Fixpoint on_record_rev (rh : list op) (n : name) : option res :=
+  match rh with
+  | [] => None
+  | OSet m r :: rest => if bytes_eqb n m then Some r else on_record_rev rest n
+  | OFailed m :: rest => if bytes_eqb n m then Some (Fail false EClient) else on_record_rev rest n
+  | OAssert m ok :: rest =>
+    if bytes_eqb n m then Some (if ok then Ok else Fail false EAssert) else on_record_rev rest n
+  | OFailedToStart ns k :: rest =>
+    if mem_bytes n ns then Some (Fail true k) else on_record_rev rest n
+  | OFailRemaining ns k :: rest =>
+    match on_record_rev rest n with
+    | Some r => Some r
+    | None => if mem_bytes n ns then Some (Fail true k) else None
+    end
+  | OSideband _ :: rest => on_record_rev rest n
+  end.
+Definition on_record (h : list op) (n : name) : option res := on_record_rev (rev h) n.
+
+Definition has_feedback (h : list op) (n : name) : bool :=
+  existsb (fun o => match o with OSideband m => bytes_eqb n m | _ => false end) h.
+
+Definition fate_of (r : option res) : fate :=
+  match r with
+  | None => NeverAnswered
+  | Some Ok => RanPassed
+  | Some (Fail _ ECouldNotRun) => NotRun
+  | Some (Fail true _) => SetupFailed
+  | Some (Fail false _) => RanFailed
+  end.
+
+Definition case_fate (h : list op) (n : name) : fate := fate_of (on_record h n).
+
+(* the relational reading of on_record (proved equivalent in C04_Props) *)
+Definition reports (o : op) (n : name) (r : res) : Prop :=
+  match o with
+  | OSet m r' => m = n /\ r' = r
+  | OFailed m => m = n /\ r = Fail false EClient
+  | OAssert m ok => m = n /\ r = (if ok then Ok else Fail false EAssert)
+  | OFailedToStart ns k => In n ns /\ r = Fail true k
+  | _ => False
+  end.
+Definition reports_on (o : op) (n : name) : Prop := exists r, reports o n r.
+Definition fills (o : op) (n : name) (r : res) : Prop :=
+  match o with OFailRemaining ns k => In n ns /\ r = Fail true k | _ => False end.
+Definition touches (o : op) (n : name) : Prop := reports_on o n \/ exists r, fills o n r.
+
+(* ---------- markings ---------- *)
+(* run() rejects configurations in which a name is both known-failing and known-flaky *)
+Inductive marks_agree : bool -> bool -> marking -> Prop :=
+| ma_none : marks_agree false false Unmarked
+| ma_failing : marks_agree true false KnownFailing
+| ma_flaky : marks_agree false true KnownFlaky.
+
+Definition marked_by (c : cfg) (mark : name -> marking) : Prop :=
+  forall n, marks_agree (c.(c_kf) n) (c.(c_kfl) n) (mark n).
+
+(* ---------- the selected cases ---------- *)
+Definition op_names (o : op) : list name :=
+  match o with
+  | OSet n _ | OFailed n | OAssert n _ | OSideband n => [n]
+  | OFailedToStart ns _ | OFailRemaining ns _ => ns
+  end.
+Definition mentioned (h : list op) : list name := flat_map op_names h.
+
+(* `sel` lists the selected permutations: distinct names, as many as the runner was told,
+   and nothing is ever reported for a name outside it *)
+Definition selection (c : cfg) (h : list op) (sel : list name) : Prop :=
+  NoDup sel /\ c.(c_total) = length sel /\ incl (mentioned h) sel.
+
+Definition case_met (mark : name -> marking) (h : list op) (n : name) : bool :=
+  met (mark n) (case_fate h n) (has_feedback h n).
+Definition case_bucket (mark : name -> marking) (h : list op) (n : name) : cls :=
+  bucket (mark n) (case_fate h n) (has_feedback h n).
+
+Definition success (mark : name -> marking) (h : list op) (sel : list name) : Prop :=
+  forall n, In n sel -> case_met mark h n = true.
+
+Definition count_bucket (mark : name -> marking) (h : list op) (k : cls) (sel : list name) : nat :=
+  length (filter (fun n => cls_eqb (case_bucket mark h n) k) sel).
+
+(* ---------- a run as batches: what each case went through ---------- *)
+(* Independent of the send loop: positions are counted over the cases of the batches
+   whose server started, up to the request at which the client ended. *)
+Inductive went :=
+| WServerDown                (* its server did not start *)
+| WAnswered (r : reply)      (* the client read the request and answered / stayed silent *)
+| WNotSent.                  (* the client had ended before the request could be sent *)
+
+Definition went_fate (w : went) : fate :=
+  match w with
+  | WServerDown => SetupFailed
+  | WAnswered RPass => RanPassed
+  | WAnswered RSilent => SetupFailed          (* no result arrived *)
+  | WAnswered _ => RanFailed
+  | WNotSent => NotRun
+  end.
+
+(* the client has ended once it has read the request it was to end after *)
+Definition ended (ex : option nat) (got : nat) : bool :=
+  match ex with Some e => e <=? got | None => false end.
+
+(* the cases of one batch whose server started; `got` = requests the client has read *)
+Fixpoint went_cases (ex : option nat) (cs : list rcase) (got : nat) : list (name * went) * nat :=
+  match cs with
+  | [] => ([], got)
+  | c :: cs' =>
+    if ended ex got
+    then let '(l, g) := went_cases ex cs' got in ((c.(rc_name), WNotSent) :: l, g)
+    else let '(l, g) := went_cases ex cs' (S got) in ((c.(rc_name), WAnswered c.(rc_reply)) :: l, g)
+  end.
+
+Fixpoint went_list (ex : option nat) (bs : list batch) (got : nat) : list (name * went) :=
+  match bs with
+  | [] => []
+  | b :: rest =>
+    if b.(b_server_ok)
+    then let '(l, g) := went_cases ex b.(b_cases) got in l ++ went_list ex rest g
+    else map (fun c => (c.(rc_name), WServerDown)) b.(b_cases) ++ went_list ex rest got
+  end.
+
+Definition scen_went (s : scen) : list (name * went) := went_list s.(s_exit_after) s.(s_batches) 0.
+
+Definition scen_success (mark : name -> marking) (s : scen) : Prop :=
+  s.(s_exit_err) = false /\
+  forall n w, In (n, w) (scen_went s) -> met (mark n) (went_fate w) false = true.
